@@ -60,16 +60,85 @@ pub fn run(rng: &mut Rng, n: usize, rep: &mut Report) {
             };
             check_legacy(&ir, ur, rep);
         } else {
-            let mut ir = gen_seven(rng, true);
+            // one case in three comes from the MALFORMED stream (holes, dips, unordered utils, points above
+            // hundred_util_rate, full five-point curves): whatever the real validate() then accepts must
+            // still have a defined, bounded, monotone rate — probed inside every segment
+            let malformed = i % 3 == 1;
+            let mut ir = if malformed { gen_bad_seven(rng) } else { gen_seven(rng, true) };
+            if malformed {
+                rep.bump("malformed_offered");
+            }
             // keep fees small and non-negative so that only the curve can fail
             for f in [&mut ir.ins_fixed, &mut ir.ins_rate, &mut ir.grp_fixed, &mut ir.grp_rate, &mut ir.prog_fixed, &mut ir.prog_rate] {
                 *f = (*f).rem_euclid(ONE / 2);
             }
-            let u1 = gen_ur(rng, &ir);
-            let u2 = gen_ur(rng, &ir);
+            let (u1, u2) = if malformed {
+                // midpoints of two consecutive segments
+                let mut xs: Vec<i128> = vec![0];
+                xs.extend(ir.pts.iter().filter(|p| p.0 != 0).map(|p| util_from_u32(p.0)));
+                xs.push(ONE);
+                let k = rng.below(xs.len() as u64 - 1) as usize;
+                let a = (xs[k] + xs[k + 1]) / 2;
+                let k2 = rng.below(xs.len() as u64 - 1) as usize;
+                let b = (xs[k2] + xs[k2 + 1]) / 2;
+                (a, b)
+            } else {
+                (gen_ur(rng, &ir), gen_ur(rng, &ir))
+            };
             check_seven(&ir, u1.min(u2), u1.max(u2), rep);
         }
     }
+}
+
+/// a seven-point curve that is well-formed except for ONE defect, biased to full (five-point) curves
+fn gen_bad_seven(rng: &mut Rng) -> Ir {
+    let mut ir = gen_seven(rng, true);
+    let k = if rng.chance(1, 2) { 5 } else { 1 + rng.below(5) as usize };
+    let mut utils: Vec<u32> = Vec::new();
+    while utils.len() < k {
+        let u = 1 + rng.below(u32::MAX as u64 - 2) as u32;
+        if !utils.contains(&u) {
+            utils.push(u);
+        }
+    }
+    utils.sort();
+    let mut rates: Vec<u32> = (0..k + 2).map(|_| rng.below(u32::MAX as u64) as u32).collect();
+    rates.sort();
+    ir.zero = rates[0];
+    ir.hundred = rates[k + 1];
+    ir.pts = [(0, 0); 5];
+    for i in 0..k {
+        ir.pts[i] = (utils[i], rates[i + 1]);
+    }
+    let j = rng.below(k as u64) as usize;
+    match rng.below(6) {
+        0 => {
+            // rate dip at point j
+            ir.pts[j].1 = ir.pts[j].1 / 2;
+            if j == 0 {
+                ir.zero = ir.zero.max(ir.pts[0].1.saturating_add(1 + rng.below(1000) as u32));
+            }
+        }
+        1 => ir.pts[k - 1].1 = ir.hundred.saturating_add(1 + rng.below(1000) as u32), // last point above 100% rate
+        2 => {
+            if k >= 2 {
+                let a = rng.below(k as u64 - 1) as usize;
+                ir.pts.swap(a, a + 1); // unordered
+            }
+        }
+        3 => {
+            if k >= 2 {
+                ir.pts[1].0 = ir.pts[0].0; // duplicate util
+            }
+        }
+        4 => ir.pts[0].1 = ir.zero.saturating_sub(1 + rng.below(1000) as u32).min(ir.pts[0].1), // first point below zero rate
+        _ => {
+            if k >= 2 {
+                ir.pts[rng.below(k as u64 - 1) as usize] = (0, 0); // hole
+            }
+        }
+    }
+    ir
 }
 
 fn check_legacy(ir: &Ir, ur: i128, rep: &mut Report) {
